@@ -20,11 +20,14 @@
 //   poison <k> <seed> f...        junk into exactly the listed fields; "$arena" = the unallocated part of the arena+stack
 //   cmp <a> <b> f...              names among the listed fields whose content differs between slots a and b ("=" if none);
 //                                 "*" = every field
+//   lazydef <flag> c...           declare lazily evaluated caches: the fields c... are meaningful only while <flag> != 0
+//   cmpl <a> <b> f...             like cmp, but a declared cache field counts as different only when its flag is set in
+//                                 both slots and the contents differ (a flag mismatch shows up on the flag field itself)
 //   hash <k> f...                 64-bit FNV over the listed fields ("*" = every field)
 //   scalar <k> <name>             any scalar member, decimal
 //   errors                        number of mju_error / mju_warning calls since the last query, last error text
 // Pseudo fields: sensordata@sensPos / @sensVel / @sensAcc (entries of sensors with that needstage), energy@ePos (energy[0]),
-// energy@eVel (energy[1]), contact (semantic members of each mjContact, padding excluded).
+// energy@eVel (energy[1]), contact (semantic members of each mjContact; padding and the solver's cone-Hessian scratch H excluded).
 #include <math.h>
 #include <setjmp.h>
 #include <stdint.h>
@@ -96,6 +99,7 @@ static void addSeg(Field* f, void* p, size_t n) {
 #define TCODE(t) TC_##t
 static size_t esize(int t) { return t == 0 ? 8 : t == 1 ? 4 : t == 2 ? 1 : t == 3 ? 8 : 1; }
 
+static Field* findF(const char* name);
 static void fields_data(mjData* d) {
   freeF();
 #define X(type, name, nr, nc) addF(#name, TCODE(type), d->name, sizeof(type) * (size_t)(m->nr) * (size_t)(nc), (long)(m->nr) * (long)(nc));
@@ -129,6 +133,24 @@ static void fields_data(mjData* d) {
   }
   addF("energy@ePos", 0, &d->energy[0], 8, 1);
   addF("energy@eVel", 0, &d->energy[1], 8, 1);
+  // wrap arrays: only the entries of the current tendon paths are meaningful
+  for (int w = 0; w < 2; w++) {
+    Field* f = findF(w ? "wrap_xpos" : "wrap_obj");
+    if (!f) continue;
+    free(f->seg); f->seg = NULL; f->nseg = 0; f->count = 0;
+    for (int i = 0; i < m->ntendon; i++) {
+      long adr = d->ten_wrapadr[i], num = d->ten_wrapnum[i];
+      if (adr < 0 || num <= 0 || adr + num > m->nwrap) continue;
+      if (w) addSeg(f, d->wrap_xpos + 3 * adr, 8 * 3 * (size_t)num); else addSeg(f, d->wrap_obj + adr, 4 * (size_t)num);
+      f->count += (w ? 3 : 1) * num;
+    }
+  }
+  // model-level validity flags (read-only): sparse Jacobian in use, actuation enabled
+  static unsigned char mflag[2];
+  mflag[0] = (unsigned char)mj_isSparse(m);
+  mflag[1] = (unsigned char)!(m->opt.disableflags & mjDSBL_ACTUATION);
+  addF("m@sparse", 2, &mflag[0], 1, 1);
+  addF("m@actuation", 2, &mflag[1], 1, 1);
 }
 
 static Field* findF(const char* name) {
@@ -146,7 +168,7 @@ static uint64_t fnv(uint64_t h, const void* p, size_t n) {
 static uint64_t hash_contact(uint64_t h, const mjContact* c) {
   h = fnv(h, &c->dist, 8); h = fnv(h, c->pos, 24); h = fnv(h, c->frame, 72); h = fnv(h, &c->includemargin, 8);
   h = fnv(h, c->friction, 40); h = fnv(h, c->solref, sizeof c->solref); h = fnv(h, c->solreffriction, sizeof c->solreffriction);
-  h = fnv(h, c->solimp, sizeof c->solimp); h = fnv(h, &c->mu, 8); h = fnv(h, c->H, sizeof c->H);
+  h = fnv(h, c->solimp, sizeof c->solimp); h = fnv(h, &c->mu, 8);   // c->H: cone-Hessian scratch of the solver, not a result
   h = fnv(h, &c->dim, 4); h = fnv(h, &c->geom1, 4); h = fnv(h, &c->geom2, 4); h = fnv(h, c->geom, sizeof c->geom);
   h = fnv(h, c->flex, sizeof c->flex); h = fnv(h, c->elem, sizeof c->elem); h = fnv(h, c->vert, sizeof c->vert);
   h = fnv(h, &c->exclude, 4); h = fnv(h, &c->efc_address, 4);
@@ -170,6 +192,7 @@ static uint64_t rng_s;
 static uint64_t rnd(void) { rng_s ^= rng_s << 13; rng_s ^= rng_s >> 7; rng_s ^= rng_s << 17; return rng_s; }
 
 static void poison_field(Field* f) {
+  if (!strncmp(f->name, "m@", 2)) return;
   for (int s = 0; s < f->nseg; s++) {
     char* p = f->seg[s].p; size_t n = f->seg[s].n;
     if (f->type == 0) { for (size_t k = 0; k < n / 8; k++) ((double*)p)[k] = (double)(int64_t)(rnd() % 2001) - 1000.0 + 0.37; }
@@ -245,6 +268,19 @@ static int field_differs(Field* fa, Field* fb) {
   return 0;
 }
 
+// lazily evaluated caches: cache field name -> flag field name
+#define MAXLAZY 32
+static char lazy_cache[MAXLAZY][64], lazy_flag[MAXLAZY][64];
+static int nlazy = 0;
+static const char* lazy_flag_of(const char* name) {
+  for (int i = 0; i < nlazy; i++) if (!strcmp(lazy_cache[i], name)) return lazy_flag[i];
+  return NULL;
+}
+static int flag_set(Field* f) {
+  for (int s = 0; s < f->nseg; s++) for (size_t k = 0; k < f->seg[s].n; k++) if (f->seg[s].p[k]) return 1;
+  return 0;
+}
+
 // snapshot of a field table (cmp needs two tables at once)
 static Field FA[MAXF];
 static int nFA;
@@ -274,6 +310,7 @@ int main(void) {
       for (int i = 0; i < NSLOT; i++) if (D[i]) { mj_deleteData(D[i]); D[i] = NULL; }
       if (m) { mj_deleteModel(m); m = NULL; }
       if (spec) { mj_deleteSpec(spec); spec = NULL; }
+      nlazy = 0;
       char err[1024];
       m = mjb_compile(stdin, &spec, err, sizeof err);
       if (!m) printf("error %s\n", err);
@@ -404,20 +441,36 @@ int main(void) {
         poison_field(f);
       }
       printf(bad ? "bad-op\n" : "ok\n");
-    } else if (!strcmp(op, "cmp") && n >= 4) {
+    } else if (!strcmp(op, "lazydef") && n >= 3) {
+      int ok = 1;
+      for (int j = 2; j < n; j++) {
+        if (nlazy >= MAXLAZY) { ok = 0; break; }
+        snprintf(lazy_cache[nlazy], 64, "%s", tok[j]); snprintf(lazy_flag[nlazy], 64, "%s", tok[1]); nlazy++;
+      }
+      printf(ok ? "ok\n" : "bad-op\n");
+    } else if ((!strcmp(op, "cmp") || !strcmp(op, "cmpl")) && n >= 4) {
       mjData* a = SLOT(atoi(tok[1])); mjData* b = SLOT(atoi(tok[2]));
       if (!a || !b) { printf("bad-op\n"); fflush(stdout); continue; }
+      int lazy = !strcmp(op, "cmpl");
       fields_data(a); snapshot_table(); fields_data(b);
       int any = 0, bad = 0;
-      if (!strcmp(tok[3], "*")) {
-        for (int i = 0; i < nF; i++) if (field_differs(&FA[i], &F[i])) { printf("%s%s", any ? " " : "", F[i].name); any = 1; }
-      } else {
-        for (int j = 3; j < n && !bad; j++) {
-          Field* fb = findF(tok[j]);
-          if (!fb) { bad = 1; break; }
-          Field* fa = &FA[fb - F];
-          if (field_differs(fa, fb)) { printf("%s%s", any ? " " : "", fb->name); any = 1; }
+      int all = !strcmp(tok[3], "*");
+      int cnt = all ? nF : n - 3;
+      for (int j = 0; j < cnt && !bad; j++) {
+        Field* fb = all ? &F[j] : findF(tok[3 + j]);
+        if (!fb) { bad = 1; break; }
+        Field* fa = &FA[fb - F];
+        if (!field_differs(fa, fb)) continue;
+        if (lazy) {
+          const char* fl = lazy_flag_of(fb->name);
+          if (fl) {
+            Field* flb = findF(fl);
+            if (!flb) { bad = 1; break; }
+            Field* fla = &FA[flb - F];
+            if (!(flag_set(fla) && flag_set(flb))) continue;   // an invalid cache is not part of the value
+          }
         }
+        printf("%s%s", any ? " " : "", fb->name); any = 1;
       }
       if (bad) printf("%sbad-op\n", any ? " " : ""); else printf(any ? "\n" : "=\n");
     } else if (!strcmp(op, "hash") && n >= 3) {
